@@ -114,6 +114,10 @@ class Steps:
 # ---------------------------------------------------------------------------------------------
 
 
+class SchedulerStall(Exception):
+    """The clients of a scheduled run stopped making progress (they block on something the scheduler does not own)."""
+
+
 class _Client:
     __slots__ = ("idx", "fn", "sem", "thread", "done", "result", "error", "prio")
 
@@ -289,7 +293,7 @@ class Baton:
         self.cur = nxt
         nxt.sem.release()
 
-    def run(self, fns, timeout=120.0):
+    def run(self, fns, timeout=60.0):
         self.clients = [_Client(i, fn) for i, fn in enumerate(fns)]
         if self.policy[0] == "pct":
             prios = list(range(len(fns)))
@@ -312,10 +316,46 @@ class Baton:
         self.cur = first
         first.sem.release()
         if not self.finished.wait(timeout):
-            raise RuntimeError("HARNESS: baton scheduler timed out (deadlock?)")
+            stuck = [c.idx for c in self.clients if not c.done]
+            raise SchedulerStall(f"clients {stuck} made no progress for {timeout:.0f} s of wall-clock time (deadlock among clients, "
+                                 f"or a client blocked outside the scheduler's control)")
         for c in self.clients:
             c.thread.join(5.0)
         return self.clients
 
     def replay_list(self):
         return [[pt, to] for pt, _frm, to, _site in self.switches]
+
+
+class WallBudgetExceeded(BaseException):
+    """No progress for a long wall-clock time inside a call that normally takes milliseconds (self-deadlock)."""
+
+
+class WallGuard:
+    """SIGALRM based guard for the main thread of a worker: lock acquisitions are interruptible by signals, so a
+    self-deadlock (a non-reentrant lock taken twice by re-entrant use of the API) surfaces as WallBudgetExceeded
+    instead of a worker that hangs until the harness watchdog kills it.  Used only around re-entrant workloads."""
+
+    def __init__(self, seconds=30.0):
+        self.seconds = seconds
+        self.armed = False
+
+    def _handler(self, signum, frame):
+        raise WallBudgetExceeded(f"no return within {self.seconds:.0f} s of wall-clock time")
+
+    def __enter__(self):
+        import signal
+
+        if threading.current_thread() is threading.main_thread():
+            self._old = signal.signal(signal.SIGALRM, self._handler)
+            signal.setitimer(signal.ITIMER_REAL, self.seconds)
+            self.armed = True
+        return self
+
+    def __exit__(self, *exc):
+        import signal
+
+        if self.armed:
+            signal.setitimer(signal.ITIMER_REAL, 0)
+            signal.signal(signal.SIGALRM, self._old)
+        return False
